@@ -3,7 +3,7 @@
 From Coq Require Import String.
 From Coq Require Import List Arith ZArith.
 Import ListNotations.
-From YP Require Import Base.Str Term.Term Unify.Unify Unify.Mgu.
+From YP Require Import Base.Str Term.Term Unify.Unify Unify.Mgu Unify.Rename Unify.Base.
 
 (* "started under any stack of already active bindings" = any acyclic store s (wf s);
    "at the yield both terms dereference to the same term": den s' t1 = den s' t2 where
@@ -59,6 +59,22 @@ Theorem C02_unify_fuel_irrelevant : forall n m s a b r,
   unify n s a b = r -> r <> UOof -> n <= m -> unify m s a b = r.
 Proof. exact unify_mono. Qed.
 Print Assumptions C02_unify_fuel_irrelevant.
+
+(* the outcome does not depend on the identity of the variables: unification commutes with every
+   injective renaming of cells (so it is a function of the shape of the terms and of which variables
+   coincide) *)
+Theorem C02_unify_equivariant : forall p, injective p -> forall n s a b,
+  unify n (ren_store p s) (ren p a) (ren p b) = ren_res p (unify n s a b).
+Proof. exact unify_equivariant. Qed.
+Print Assumptions C02_unify_equivariant.
+
+(* "started under any stack of already active bindings": the active bindings matter only through the
+   dereferenced values of the two arguments - the new bindings are those computed, from no bindings at
+   all, for the dereferenced terms, put on top of the unchanged stack *)
+Theorem C02_unify_increment : forall n s a b, wf s ->
+  unify n s a b = lift s (unify n [] (den s a) (den s b)).
+Proof. exact unify_increment. Qed.
+Print Assumptions C02_unify_increment.
 
 (* non-vacuity: a store with two active bindings is wf, and a unification under it succeeds *)
 Example C02_nonvacuous :
